@@ -129,15 +129,15 @@ Proof.
   - apply frame_refl.
 Qed.
 
-Lemma frame_do_input cur ms tok ms' : do_input cur (Ok ms) tok = Ok ms' -> frame cur ms ms'.
+Lemma frame_do_input al cur ms tok ms' : do_input al cur (Ok ms) tok = Ok ms' -> frame cur ms ms'.
 Proof.
   intro H. unfold do_input in H. cbn [bind] in H. destruct (pni tok) as [[p i]|]; [|discriminate]. cbn [bind] in H.
-  eapply frame_trans; [|eapply frame_upd_model_res; [exact H|intros; eapply connect_name; eauto]].
+  eapply frame_trans; [|eapply frame_upd_model_res; [exact H|intros; eapply connect_to_name; eauto]].
   eapply frame_trans; [|apply frame_grow_port].
   destruct (find_port _ _); [apply frame_upd_model; intros x Hx; exact Hx|apply frame_add_port].
 Qed.
 
-Lemma frame_do_output cur ms tok ms' : do_output cur (Ok ms) tok = Ok ms' -> frame cur ms ms'.
+Lemma frame_do_output al cur ms tok ms' : do_output al cur (Ok ms) tok = Ok ms' -> frame cur ms ms'.
 Proof.
   intro H. unfold do_output in H. cbn [bind] in H. destruct (pni tok) as [[p i]|]; [|discriminate]. cbn [bind] in H.
   set (ms1 := match find_port _ _ with None => _ | Some _ => ms end) in H.
@@ -147,7 +147,7 @@ Proof.
   destruct (_ || _).
   - inversion H; subst. eapply frame_trans; [exact F1|]. eapply frame_trans; [exact F2|apply frame_grow_port].
   - eapply frame_trans; [exact F1|]. eapply frame_trans; [exact F2|]. eapply frame_trans; [apply frame_grow_port|].
-    eapply frame_upd_model_res; [exact H|intros; eapply connect_name; eauto].
+    eapply frame_upd_model_res; [exact H|intros; eapply connect_to_name; eauto].
 Qed.
 
 Lemma frame_do_pair ref cur a tok a' : do_pair ref (Ok a) tok = Ok a' -> frame cur (fst a) (fst a').
@@ -248,10 +248,10 @@ Proof.
   rewrite find_model_upd; [|intros y Hy; congruence]. rewrite E, En, str_eqb_refl. eauto.
 Qed.
 
-Lemma connect_keeps pr c k m m' :
-  connect pr c k m = Ok m' ->
+Lemma connect_to_keeps al pr c k m m' :
+  connect_to al pr c k m = Ok m' ->
   m_name m' = m_name m /\ isigs m' = isigs m /\ length (m_insts m') = length (m_insts m).
-Proof. unfold connect. destruct (connected m pr); [discriminate|]. intro H. inversion H. repeat split. Qed.
+Proof. unfold connect_to. destruct (connected m pr); [discriminate|]. intro H. inversion H. repeat split. Qed.
 
 Lemma keepI_fold {A X} (f : result A -> X -> result A) (g : A -> list model) cur l a a' :
   (forall e x, f (Error e) x = Error e) ->
@@ -264,7 +264,7 @@ Proof.
   - apply keepI_refl.
 Qed.
 
-Lemma keepI_do_input cur ms tok ms' : do_input cur (Ok ms) tok = Ok ms' -> keepI cur ms ms'.
+Lemma keepI_do_input al cur ms tok ms' : do_input al cur (Ok ms) tok = Ok ms' -> keepI cur ms ms'.
 Proof.
   intro H. unfold do_input in H. cbn [bind] in H. destruct (pni tok) as [[p i]|]; [|discriminate]. cbn [bind] in H.
   set (ms1 := match find_port _ _ with None => _ | Some _ => _ end) in H.
@@ -272,10 +272,10 @@ Proof.
   { unfold ms1. destruct (find_port _ _); [|apply keepI_add_port].
     apply keepI_upd_any; [intros x Hx; exact Hx|intro x; repeat split]. }
   eapply keepI_trans; [exact K1|]. eapply keepI_trans; [apply keepI_grow_port|].
-  eapply keepI_upd_model_res; [exact H|]. intros; eapply connect_keeps; eauto.
+  eapply keepI_upd_model_res; [exact H|]. intros; eapply connect_to_keeps; eauto.
 Qed.
 
-Lemma keepI_do_output cur ms tok ms' : do_output cur (Ok ms) tok = Ok ms' -> keepI cur ms ms'.
+Lemma keepI_do_output al cur ms tok ms' : do_output al cur (Ok ms) tok = Ok ms' -> keepI cur ms ms'.
 Proof.
   intro H. unfold do_output in H. cbn [bind] in H. destruct (pni tok) as [[p i]|]; [|discriminate]. cbn [bind] in H.
   set (ms1 := match find_port _ _ with None => _ | Some _ => ms end) in H.
@@ -285,7 +285,7 @@ Proof.
   destruct (_ || _).
   - inversion H; subst. eapply keepI_trans; [exact F1|]. eapply keepI_trans; [exact F2|apply keepI_grow_port].
   - eapply keepI_trans; [exact F1|]. eapply keepI_trans; [exact F2|]. eapply keepI_trans; [apply keepI_grow_port|].
-    eapply keepI_upd_model_res; [exact H|intros; eapply connect_keeps; eauto].
+    eapply keepI_upd_model_res; [exact H|intros; eapply connect_to_keeps; eauto].
 Qed.
 
 Lemma keepI_do_pair ref cur a tok a' : do_pair ref (Ok a) tok = Ok a' -> keepI cur (fst a) (fst a').
@@ -299,7 +299,7 @@ Proof.
 Qed.
 
 (* ---------- instance statements on the current model ---------- *)
-Lemma frame_conn_one cur ref idx ms fa ms' : conn_one cur ref idx (Ok ms) fa = Ok ms' -> frame cur ms ms'.
+Lemma frame_conn_one al cur ref idx ms fa ms' : conn_one al cur ref idx (Ok ms) fa = Ok ms' -> frame cur ms ms'.
 Proof.
   intro H. unfold conn_one in H. cbn [bind] in H.
   destruct (pni (snd fa)) as [[c k]|]; [|discriminate]. cbn [bind] in H.
@@ -308,14 +308,14 @@ Proof.
   - inversion H; subst. apply frame_upd_model. intros x Hx. exact Hx.
   - destruct (find_port _ _); [|discriminate].
     eapply frame_trans; [apply frame_grow_port|].
-    eapply frame_upd_model_res; [exact H|intros; eapply connect_name; eauto].
+    eapply frame_upd_model_res; [exact H|intros; eapply connect_to_name; eauto].
 Qed.
 
 Lemma isigs_upd_inst idx f m :
   (forall i, isig_of_inst (f i) = isig_of_inst i) -> isigs (upd_inst idx f m) = isigs m.
 Proof. intro Hf. unfold isigs, upd_inst. cbn. apply map_upd_nth_same. exact Hf. Qed.
 
-Lemma keepI_conn_one cur ref idx ms fa ms' : conn_one cur ref idx (Ok ms) fa = Ok ms' -> keepI cur ms ms'.
+Lemma keepI_conn_one al cur ref idx ms fa ms' : conn_one al cur ref idx (Ok ms) fa = Ok ms' -> keepI cur ms ms'.
 Proof.
   intro H. unfold conn_one in H. cbn [bind] in H.
   destruct (pni (snd fa)) as [[c k]|]; [|discriminate]. cbn [bind] in H.
@@ -326,7 +326,7 @@ Proof.
     + cbn. apply length_upd_nth.
   - destruct (find_port _ _); [|discriminate].
     eapply keepI_trans; [apply keepI_grow_port|].
-    eapply keepI_upd_model_res; [exact H|intros; eapply connect_keeps; eauto].
+    eapply keepI_upd_model_res; [exact H|intros; eapply connect_to_keeps; eauto].
 Qed.
 
 Lemma set_inst_name_keeps idx nm m m' :
@@ -350,10 +350,10 @@ Proof.
   assert (K1 : keepI (s_cur s) ms ms1) by (eapply keepI_upd_model_res; [exact H1|intros; eapply set_inst_name_keeps; eauto]).
   unfold connect_instance_pins in H2.
   assert (F2 : frame (s_cur s) ms1 ms2).
-  { apply (frame_fold (conn_one (s_cur s) ref idx) (fun x => x) (s_cur s) info ms1 ms2); auto.
+  { apply (frame_fold (conn_one (s_merged s) (s_cur s) ref idx) (fun x => x) (s_cur s) info ms1 ms2); auto.
     intros a x a' A. eapply frame_conn_one; eauto. }
   assert (K2 : keepI (s_cur s) ms1 ms2).
-  { apply (keepI_fold (conn_one (s_cur s) ref idx) (fun x => x) (s_cur s) info ms1 ms2); auto.
+  { apply (keepI_fold (conn_one (s_merged s) (s_cur s) ref idx) (fun x => x) (s_cur s) info ms1 ms2); auto.
     intros a x a' A. eapply keepI_conn_one; eauto. }
   split; [eapply frame_trans; eauto|]. split; [eapply keepI_trans; eauto|]. split; reflexivity.
 Qed.
@@ -442,12 +442,11 @@ Proof.
   - exact E1.
 Qed.
 
-Lemma do_conn_keeps a i b j m m' :
-  do_conn a i b j m = Ok m' ->
+Lemma do_conn_keeps al a i b j m m' :
+  do_conn al a i b j m = Ok m' ->
   m_name m' = m_name m /\ isigs m' = isigs m /\ length (m_insts m') = length (m_insts m).
 Proof.
-  unfold do_conn. destruct (find_cable _ _); [discriminate|]. destruct (_ && _); [discriminate|].
-  intro H. inversion H. repeat split.
+  unfold do_conn. destruct (nb_eqb _ _); intro H; inversion H; repeat split.
 Qed.
 
 Lemma isigs_nil m : isigs m = [] -> m_insts m = [].
@@ -523,16 +522,16 @@ Proof.
   - (* .inputs *)
     apply bind_ok in H as [ms [H1 H2]]. inversion H2; subst s'.
     apply keepI_step; [exact Hc| | |reflexivity|reflexivity|exact HC]; rewrite ?st_models_set_ms.
-    + apply (keepI_fold (do_input (s_cur s)) (fun a => a) (s_cur s) l (st_models s) ms); auto.
+    + apply (keepI_fold (do_input (s_merged s) (s_cur s)) (fun a => a) (s_cur s) l (st_models s) ms); auto.
       intros a x a' A. eapply keepI_do_input; eauto.
-    + apply (frame_fold (do_input (s_cur s)) (fun a => a) (s_cur s) l (st_models s) ms); auto.
+    + apply (frame_fold (do_input (s_merged s) (s_cur s)) (fun a => a) (s_cur s) l (st_models s) ms); auto.
       intros a x a' A. eapply frame_do_input; eauto.
   - (* .outputs *)
     apply bind_ok in H as [ms [H1 H2]]. inversion H2; subst s'.
     apply keepI_step; [exact Hc| | |reflexivity|reflexivity|exact HC]; rewrite ?st_models_set_ms.
-    + apply (keepI_fold (do_output (s_cur s)) (fun a => a) (s_cur s) l (st_models s) ms); auto.
+    + apply (keepI_fold (do_output (s_merged s) (s_cur s)) (fun a => a) (s_cur s) l (st_models s) ms); auto.
       intros a x a' A. eapply keepI_do_output; eauto.
-    + apply (frame_fold (do_output (s_cur s)) (fun a => a) (s_cur s) l (st_models s) ms); auto.
+    + apply (frame_fold (do_output (s_merged s) (s_cur s)) (fun a => a) (s_cur s) l (st_models s) ms); auto.
       intros a x a' A. eapply frame_do_output; eauto.
   - (* .clock *)
     inversion H; subst s'. apply keepI_step; [exact Hc| | |reflexivity|reflexivity|exact HC]; rewrite ?st_models_set_ms.
